@@ -44,7 +44,10 @@ def returned_by_match(func, match_edges, ret_consts):
                         v = strip(func.nodes[d['init']])
                         envd[d['id']] = v['v'] if v is not None and 'v' in v.d and v.k != 'DeclRefExpr' else 'top'
             elif e.k == 'ReturnStmt' and e.ch:
-                results.add((matched, value_of(e.ch[0], envd)))
+                v = value_of(e.ch[0], envd)
+                if isinstance(v, int) and func.d.get('retCanon') in ('_Bool', 'bool'):
+                    v = int(bool(v))        # `return -1` from a bool function is `true`
+                results.add((matched, v))
             out.add((matched, tuple(sorted(envd.items()))))
         return frozenset(out)
 
